@@ -164,8 +164,8 @@ LoopTest == Top.rbp < LBP(ver, NextTok)         \* while rbp < self.next_token.l
 Nud ==
   /\ phase = "parse" /\ Top.left = ""
   /\ LET tok == NextTok IN
-     IF tok = "x" THEN
-          /\ stack' = SetTop([Top EXCEPT !.left = Leaf(toks, pos), !.lsym = "x"])
+     IF tok \in Operands THEN          \* a name test / variable, or a unary lookup (its key is parsed by expression(85))
+          /\ stack' = SetTop([Top EXCEPT !.left = Leaf(toks, pos), !.lsym = tok])
           /\ pos' = pos + 1 /\ UNCHANGED <<ver, toks, phase, gen, result>>
      ELSE IF tok \in PreOps THEN
           IF NudRejects(ver, Top.rbp, tok, After)
